@@ -199,6 +199,12 @@ impl<H: Hal, const SIZE: usize> VirtQueue<H, SIZE> {
         unsafe {
             (*self.avail.as_ptr()).ring[avail_slot as usize] = head;
         }
+        #[cfg(virtio_drivers_verif)]
+        crate::verif_hooks::store(
+            crate::verif_hooks::STORE_AVAIL_RING,
+            self.queue_idx,
+            avail_slot,
+        );
 
         // Write barrier so that device sees changes to descriptor table and available ring before
         // change to available index.
@@ -212,6 +218,12 @@ impl<H: Hal, const SIZE: usize> VirtQueue<H, SIZE> {
                 .idx
                 .store(self.avail_idx, Ordering::Release);
         }
+        #[cfg(virtio_drivers_verif)]
+        crate::verif_hooks::store(
+            crate::verif_hooks::STORE_AVAIL_IDX,
+            self.queue_idx,
+            self.avail_idx,
+        );
 
         Ok(head)
     }
@@ -330,6 +342,8 @@ impl<H: Hal, const SIZE: usize> VirtQueue<H, SIZE> {
 
         // Wait until there is at least one element in the used ring.
         while !self.can_pop() {
+            #[cfg(virtio_drivers_verif)]
+            crate::verif_hooks::spin(crate::verif_hooks::SPIN_QUEUE_WAIT_POP);
             spin_loop();
         }
 
@@ -350,6 +364,12 @@ impl<H: Hal, const SIZE: usize> VirtQueue<H, SIZE> {
                     .flags
                     .store(avail_ring_flags, Ordering::Release)
             }
+            #[cfg(virtio_drivers_verif)]
+            crate::verif_hooks::store(
+                crate::verif_hooks::STORE_AVAIL_FLAGS,
+                self.queue_idx,
+                avail_ring_flags,
+            );
         }
     }
 
@@ -379,6 +399,12 @@ impl<H: Hal, const SIZE: usize> VirtQueue<H, SIZE> {
         unsafe {
             (*self.desc.as_ptr())[index] = self.desc_shadow[index].clone();
         }
+        #[cfg(virtio_drivers_verif)]
+        crate::verif_hooks::store(
+            crate::verif_hooks::STORE_DESC,
+            self.queue_idx,
+            index as u16,
+        );
     }
 
     /// Returns whether there is a used element that can be popped.
@@ -563,6 +589,12 @@ impl<H: Hal, const SIZE: usize> VirtQueue<H, SIZE> {
                     .used_event
                     .store(self.last_used_idx, Ordering::Release);
             }
+            #[cfg(virtio_drivers_verif)]
+            crate::verif_hooks::store(
+                crate::verif_hooks::STORE_USED_EVENT,
+                self.queue_idx,
+                self.last_used_idx,
+            );
         }
 
         Ok(len)
